@@ -371,11 +371,9 @@ Fixpoint lt_apply (e : env) (t : snode) (sa : bool) (ops : list val) (tr : lrutr
   | _ => Exc TypeError
   end.
 
-Definition do_lrutrie (arg : val) : val :=
-  match arg with
-  | VL [ev; VB sa; VL ops; VL queries] =>
-      let e := env_of ev in
-      let t := if sa then suffix_trie tt else sempty in
+Definition lrutrie_case (e : env) (t : snode) (sa : bool) (c : val) : val :=
+  match c with
+  | VL [VL ops; VL queries] =>
       match lt_apply e t sa ops empty with
       | Exc x => VErr (exn_name x)
       | Ok tr =>
@@ -394,6 +392,16 @@ Definition do_lrutrie (arg : val) : val :=
                                 | _ => vbad
                                 end) queries)]
       end
+  | _ => vbad
+  end.
+
+(* arg: env suffix_aware (case ...) with case = (ops queries); the suffix trie is built once *)
+Definition do_lrutrie (arg : val) : val :=
+  match arg with
+  | VL [ev; VB sa; VL cases] =>
+      let e := env_of ev in
+      let t := if sa then suffix_trie tt else sempty in
+      VL (map (lrutrie_case e t sa) cases)
   | _ => vbad
   end.
 
